@@ -160,7 +160,22 @@ def run_case(case):
     ok, base = guarded(res, "C02/raises/constructor", Cls, N, **kwargs)
     if not ok:
         return res
-    dtypes = [base.buffer[k].dtype for k in keys]
+    # documented storage dtypes (constructor argument, or the documented
+    # defaults: float everywhere, int for 'termination' and - with
+    # discrete_actions - for 'action'); NOT read back from the buffer
+    if sch["keys"] is not None:
+        dtypes = [np.dtype({"float": float, "int": int}.get(d, d))
+                  for d in sch["dtypes"]]
+    else:
+        disc = bool(sch["kw"].get("discrete_actions"))
+        dtypes = [np.dtype(float), np.dtype(int if disc else float),
+                  np.dtype(float), np.dtype(float), np.dtype(int)]
+    for k, want_dt in zip(keys, dtypes):
+        if base.buffer[k].dtype != want_dt:
+            res.violation("C02/storage_dtype", f"{case['cls']}: field '{k}' is "
+                          f"stored as {base.buffer[k].dtype}, documented storage "
+                          f"dtype is {want_dt}", {"kw": sch["kw"]})
+            return res
     if multi:
         buf = rb.MultiTaskReplayBuffer(base, multi)
     else:
@@ -234,6 +249,11 @@ def run_case(case):
             for f, k in enumerate(keys):
                 want = expected(i, f)
                 got = fields[f][r]
+                if got.dtype.kind != dtypes[f].kind:
+                    res.violation(
+                        "C02/storage_dtype", f"{where}: field '{k}' sampled as "
+                        f"{got.dtype}, documented storage dtype is {dtypes[f]}")
+                    return None
                 if not np.array_equal(got, want.astype(got.dtype)):
                     res.violation("C02/mixed_row", f"{where}: sampled row mixes "
                                   f"transitions: field {k} is not that of id {i}",
